@@ -489,6 +489,7 @@ theorem runOps_eq (f : Framer M) : ∀ (ops : List Op) (o : Out M),
       rw [this, feedAllFrom_append]
       exact ih _
     | send d => exact ih o
+    | ctl t => exact ih o
 
 /-- interleaved reads of several connections: connection `i` ends where its own reads,
     in order, take it -/
